@@ -294,7 +294,7 @@ P_CloseStops == /\ ev.kind = "act" /\ ~ev.done => ~refClosed
                 /\ ev.kind = "close" => ev.stuck = {}
 
 \* the list the handler reports is the list the call log defines
-P_ListMatches == {m \in Targets : hunt[m] # NoIP} = refHunt
+P_ListMatches == refClosed \/ {m \in Targets : hunt[m] # NoIP} = refHunt      \* (the statement is silent about the list after Close)
 
 Verdict ==
   IF ~P_ForgedOnlyToHunted THEN "C13_ForgedOnlyToHunted"
